@@ -659,11 +659,18 @@ Qed.
 
 (* the operations for which the claim holds; AddInIssuance, AddInReissuance and the blinder are missing *)
 (* the blinder's issuance writes skip finalized inputs (fix e4278d0) *)
-Lemma fold_iss_frozen : forall (iss : list (N * bool)) l m (x : aux),
+Lemma existsb_false_In {A} : forall (f : A -> bool) l y, existsb f l = false -> In y l -> f y = false.
+Proof.
+  intros f l y H Hin. destruct (f y) eqn:E; auto.
+  assert (existsb f l = true) by (apply existsb_exists; exists y; auto). congruence.
+Qed.
+
+Lemma fold_iss_frozen : forall (iss : list (N * N)) l m (x : aux),
   (forall y, In y iss -> N.to_nat (fst y) <> m) -> nth_error l m = Some x ->
   nth_error (fold_left (fun l y =>
                match nth_error l (N.to_nat (fst y)) with
-               | Some ax => set_nth (N.to_nat (fst y)) (set_a_issblind (snd y) ax) l
+               | Some ax => set_nth (N.to_nat (fst y))
+                              (set_a_issbad (snd y =? 2) (set_a_issblind (negb (snd y =? 0)) ax)) l
                | None => l end) iss l) m = Some x.
 Proof.
   induction iss as [|y iss IH]; intros l m x Hne Hm; cbn [fold_left]; auto.
@@ -699,10 +706,8 @@ Proof.
   match type of H with (if ?b then _ else _) = _ => destruct b end; inversion H; subst; auto.
   apply fold_iss_frozen; auto.
   intros y Hy Heq. subst m.
-  assert (existsb (fun x1 => (Z.of_N (g_nin p) - 1 <? Z.of_N (fst x1))%Z
-            || match nth_error (p_auxs p) (N.to_nat (fst x1)) with Some ax => finalized ax | None => false end) (bl_iss a) = true) as Ht.
-  { apply existsb_exists; exists y; split; auto. rewrite Hm, Hf. apply orb_true_r. }
-  congruence.
+  pose proof (existsb_false_In _ _ _ Eg Hy) as Hq. cbv beta in Hq. rewrite Hm, Hf in Hq.
+  cbn [orb] in Hq. rewrite orb_true_r in Hq. discriminate.
 Qed.
 
 (* the multi-part operations, the finalizers (and the caller's flag change) *)
@@ -789,11 +794,17 @@ Proof. eexists; split; [vm_compute; reflexivity|]. vm_compute. reflexivity. Qed.
 (* Two things are not decided by the library: the caller may write any bit set into Global.TxModifiable (the
    parser accepts 0..7), and the scalar a non-last blinder publishes comes from its generator (the parser rejects
    a scalar that occurs twice). The theorem takes operation lists in which the caller's flags are three bits and
-   the generator's scalars are fresh. *)
+   the generator's scalars are fresh.
+   A third condition is a DEFECT of the code as it is (known finding, kept visible by the _refuted witnesses below):
+   the blinder accepts an issuance value commitment of any length for an input without issuance value, and a nonce
+   commitment of 33 bytes that is not a curve point; it writes both and the parser refuses them. The theorem is
+   therefore a _partial: it takes blinder calls whose commitments are well formed. *)
 Definition op_ok (p : pset) (o : op) : Prop :=
   match o with
   | OSetMod (Some f) => f < 8
-  | OBlind a => bl_last a = true \/ existsb (fun y => y =? bl_scalar a) (g_scalars p) = false
+  | OBlind a => (bl_last a = true \/ existsb (fun y => y =? bl_scalar a) (g_scalars p) = false)
+                /\ forallb (fun x => negb (snd x =? 2)) (bl_iss a) = true      (* issuance commitments of 33 bytes *)
+                /\ forallb (fun x => negb (snd x =? 3)) (bl_outs a) = true     (* nonce commitments that are points *)
   | _ => True
   end.
 Fixpoint good_run (p : pset) (ops : list op) : Prop :=
@@ -832,9 +843,9 @@ Proof.
 Qed.
 
 (* what aux_reparses looks at *)
-Definition tapview (a : aux) := (a_tapss a, a_tapbip32 a).
+Definition tapview (a : aux) := (a_tapss a, a_tapbip32 a, a_issbad a).
 Lemma aux_reparses_tapview : forall a b, tapview a = tapview b -> aux_reparses a = aux_reparses b.
-Proof. intros a b H; unfold tapview in H; inversion H as [[H1 H2]]; unfold aux_reparses; rewrite H1, H2; reflexivity. Qed.
+Proof. intros a b H; unfold tapview in H; inversion H as [[H1 H2 H3]]; unfold aux_reparses; rewrite H1, H2, H3; reflexivity. Qed.
 
 Definition keeps_rp (f : core -> aux -> aux * lres) : Prop :=
   forall c a, aux_reparses a = true -> aux_reparses (fst (f c a)) = true.
@@ -1092,27 +1103,49 @@ Lemma mk_out_reparses : forall v addr b, out_reparses (mk_out v addr b) = true.
 Proof. intros v addr b; unfold out_reparses, mk_out, addr_bk; cbn. destruct (addr =? 2); reflexivity. Qed.
 
 (* the blinder *)
-Lemma fold_iss_rp : forall (iss : list (N * bool)) l, forallb aux_reparses l = true ->
+Lemma fold_iss_rp : forall (iss : list (N * N)) l, forallb (fun x => negb (snd x =? 2)) iss = true ->
+  forallb aux_reparses l = true ->
   forallb aux_reparses (fold_left (fun l y =>
                match nth_error l (N.to_nat (fst y)) with
-               | Some ax => set_nth (N.to_nat (fst y)) (set_a_issblind (snd y) ax) l
+               | Some ax => set_nth (N.to_nat (fst y))
+                              (set_a_issbad (snd y =? 2) (set_a_issblind (negb (snd y =? 0)) ax)) l
                | None => l end) iss l) = true.
 Proof.
-  induction iss as [|y iss IH]; intros l H; cbn [fold_left]; auto. apply IH.
+  induction iss as [|y iss IH]; intros l Hw H; cbn [fold_left]; auto. cbn in Hw. apply andb_prop in Hw as [W1 W2].
+  apply IH; auto.
   destruct (nth_error l (N.to_nat (fst y))) as [ax|] eqn:E; auto.
-  apply forallb_set_nth; auto. pose proof (forallb_nth _ _ _ _ H E) as Hx. destruct ax; exact Hx.
+  apply forallb_set_nth; auto. pose proof (forallb_nth _ _ _ _ H E) as Hx.
+  apply negb_true_iff in W1. rewrite W1. destruct ax; unfold aux_reparses in *; cbn in *.
+  apply andb_prop in Hx as [Hx _]. rewrite Hx; reflexivity.
+Qed.
+
+Lemma insert_by_idx_forallb : forall (P : N * N -> bool) x l, P x = true -> forallb P l = true -> forallb P (insert_by_idx x l) = true.
+Proof.
+  intros P x l Hx; induction l as [|y l IH]; intro H; cbn in *; [rewrite Hx; auto|].
+  apply andb_prop in H as [H1 H2]. destruct (fst x <? fst y); cbn; rewrite ?Hx, ?H1, ?H2; auto.
+Qed.
+Lemma sort_by_idx_forallb : forall (P : N * N -> bool) l, forallb P l = true -> forallb P (sort_by_idx l) = true.
+Proof.
+  intros P l H; unfold sort_by_idx.
+  assert (forall acc, forallb P acc = true -> forallb P (fold_left (fun acc x => insert_by_idx x acc) l acc) = true) as G.
+  { induction l as [|x l IH]; intros acc Ha; cbn; auto. cbn in H; apply andb_prop in H as [H1 H2].
+    apply IH; auto. apply insert_by_idx_forallb; auto. }
+  apply G; reflexivity.
 Qed.
 
 Lemma blind_outs_rp : forall a l outs outs' d, blind_outs a l outs = (outs', d) ->
+  forallb (fun x => negb (snd x =? 3)) l = true ->
   forallb out_reparses outs = true -> forallb out_reparses outs' = true.
 Proof.
-  intros a l; induction l as [|[i c] l IH]; intros outs outs' d H Ho; cbn in H.
+  intros a l; induction l as [|[i c] l IH]; intros outs outs' d H Hw Ho; cbn in H.
   - inversion H; subst; auto.
-  - destruct (bl_last a && match l with [] => true | _ => false end && ((bl_gfail a =? 2) || (bl_gfail a =? 3))).
+  - cbn in Hw. apply andb_prop in Hw as [W1 W2]. apply negb_true_iff in W1.
+    destruct (bl_last a && match l with [] => true | _ => false end && ((bl_gfail a =? 2) || (bl_gfail a =? 3))).
     + inversion H; subst; auto.
     + destruct (nth_error outs (N.to_nat i)) as [o|] eqn:E; [|inversion H; subst; auto].
       eapply IH; eauto. apply forallb_set_nth; auto.
-      pose proof (forallb_nth _ _ _ _ Ho E) as Hx. destruct o; exact Hx.
+      pose proof (forallb_nth _ _ _ _ Ho E) as Hx. rewrite W1. destruct o; unfold out_reparses in *; cbn in *.
+      apply andb_prop in Hx as [Hx _]. rewrite Hx; reflexivity.
 Qed.
 
 Lemma do_blind_J : forall p a, J p -> op_ok p (OBlind a) ->
@@ -1142,10 +1175,11 @@ Proof.
   destruct (negb done); [inversion H|].
   match type of H with (if ?b then _ else _) = _ => destruct b eqn:Esan end; inversion H; subst.
   apply J_upd; auto.
-  - cbn in Hok. destruct (bl_last a); [reflexivity|]. destruct Hok as [Hok|Hok]; [discriminate|].
+  - cbn in Hok. destruct Hok as (Hok & _ & _). destruct (bl_last a); [reflexivity|]. destruct Hok as [Hok|Hok]; [discriminate|].
     apply nodup_n_snoc; auto. apply (J_sc _ Hj).
-  - apply fold_iss_rp. apply (J_auxs _ Hj).
-  - eapply blind_outs_rp; eauto. apply (J_outs _ Hj).
+  - cbn in Hok. destruct Hok as (_ & W & _). apply fold_iss_rp; auto. apply (J_auxs _ Hj).
+  - cbn in Hok. destruct Hok as (_ & _ & W). eapply blind_outs_rp; eauto; [|apply (J_outs _ Hj)].
+    apply sort_by_idx_forallb; auto.
 Qed.
 
 (* the signer's work on one input *)
@@ -1228,7 +1262,8 @@ Proof.
   - (* tap bip32: a second derivation for the same key is refused *)
     apply on_input_staged_J; auto; [|lok2].
     intros c a H; cbv beta. destruct (existsb (fun x => tb_key x =? tb_key d) (a_tapbip32 a)) eqn:E; cbn [fst]; [exact H|].
-    unfold aux_reparses in *; cbn. apply andb_prop in H as [H1 H3]. rewrite H1; cbn [andb].
+    unfold aux_reparses in *; cbn. apply andb_prop in H as [H1 H4]; apply andb_prop in H1 as [H1 H3].
+    rewrite H1, H4, andb_true_r; cbn [andb].
     rewrite map_app; cbn. apply nodup_n_snoc; auto.
     rewrite <- E. clear. induction (a_tapbip32 a) as [|x l IH]; cbn; auto. rewrite IH; reflexivity.
   - apply on_output_staged_J; [exact Hj| |].
@@ -1245,8 +1280,8 @@ Proof.
     destruct ((ts_pklen s =? 32) && (ts_lhlen s =? 32)) eqn:E1; cbn [negb]; [|exact H].
     destruct (siglen_ok (ts_siglen s)); cbn [negb]; [|exact H].
     destruct (existsb (fun x => (ts_pk x =? ts_pk s) && (ts_leaf x =? ts_leaf s)) (a_tapss a)) eqn:E2; cbn [fst]; [exact H|].
-    unfold aux_reparses in *; cbn. apply andb_prop in H as [H1 H3]; apply andb_prop in H1 as [H1 H2].
-    rewrite H3, andb_true_r. apply andb_prop in E1 as [P1 P2]. apply N.eqb_eq in P1, P2.
+    unfold aux_reparses in *; cbn. apply andb_prop in H as [H1 H4]; apply andb_prop in H1 as [H1 H3]; apply andb_prop in H1 as [H1 H2].
+    rewrite H3, H4, !andb_true_r. apply andb_prop in E1 as [P1 P2]. apply N.eqb_eq in P1, P2.
     rewrite forallb_app, H1; cbn. rewrite P1, P2; cbn.
     rewrite map_app; cbn.
     clear -H2 E2. induction (a_tapss a) as [|x l IH]; cbn in *; auto.
@@ -1314,10 +1349,30 @@ Proof.
   induction ops as [|o ops IH]; intros p Hj Hg; cbn in *; auto. destruct Hg as [H1 H2]. apply IH; auto. apply step_J; auto.
 Qed.
 
-(* ===== after any operation history the packet serialises and re-parses to itself ===== *)
-Theorem reachable_roundtrips : forall ins outs fb p0 ops,
+(* ===== after any operation history the packet serialises and re-parses to itself =====
+   full statement: forall ins outs fb p0 ops, init ins outs fb = IOk p0 -> rt (run p0 ops) = true *)
+Theorem reachable_roundtrips_partial : forall ins outs fb p0 ops,
   init ins outs fb = IOk p0 -> good_run p0 ops -> rt (run p0 ops) = true.
 Proof. intros ins outs fb p0 ops H Hg. apply J_rt. apply good_run_J; auto. eapply init_J; eauto. Qed.
+
+(* refuted for the code as it is: a blinder call that returns no error and leaves a packet the parser refuses *)
+Definition blind_one (iss : list (N * N)) (ocls : N) : blind_args :=
+  {| bl_last := true; bl_owned := [0]; bl_iss := iss; bl_outs := [(0, ocls)]; bl_surj := true; bl_basset := true;
+     bl_range := true; bl_bvalue := true; bl_gfail := 0; bl_scalar := 9 |}.
+Definition one_conf_out : list outarg :=
+  [{| oa_cls := 0; oa_amount := 1000; oa_script := Some (SWpkh 1); oa_bk := 1; oa_bidx := 0 |}].
+
+Theorem reachable_roundtrips_refuted_issuance_commitment_length :
+  exists p0, init [mk_in 0 0 0 0] one_conf_out None = IOk p0 /\
+    let p := run p0 [OWUtxo 0%Z (Some {| u_script := SWpkh 0; u_conf := false |})] in
+    rt p = true /\ snd (step p (OBlind (blind_one [(0, 2)] 0))) = Ok /\ rt (fst (step p (OBlind (blind_one [(0, 2)] 0)))) = false.
+Proof. eexists; split; [vm_compute; reflexivity|]. vm_compute. auto. Qed.
+
+Theorem reachable_roundtrips_refuted_nonce_commitment_not_a_point :
+  exists p0, init [mk_in 0 0 0 0] one_conf_out None = IOk p0 /\
+    let p := run p0 [OWUtxo 0%Z (Some {| u_script := SWpkh 0; u_conf := false |})] in
+    rt p = true /\ snd (step p (OBlind (blind_one [] 3))) = Ok /\ rt (fst (step p (OBlind (blind_one [] 3)))) = false.
+Proof. eexists; split; [vm_compute; reflexivity|]. vm_compute. auto. Qed.
 
 (* the side condition on the caller's flags is needed: a bit set above 7 is written and refused by the parser *)
 Theorem reachable_roundtrips_needs_three_bit_flags :
